@@ -1,5 +1,6 @@
 import SJ.Model.Raw
 import SJ.Proofs.Machine
+import SJ.Proofs.RawSer
 /-!
 # C19 — RawValue captures exactly the source text of one value
 
@@ -166,5 +167,64 @@ theorem skipWs_prefix (bs : Bytes) (i : Nat) :
 /-- non-vacuity: ` [1, 2] ` captures `[1, 2]` (bytes 1..7) -/
 example : rawTop {} .slice [0x20, 0x5b, 0x31, 0x2c, 0x20, 0x32, 0x5d, 0x20] = .ok 1 7 := rfl
 example : rawTop {} .slice [0x31, 0x20, 0x32] = .err .TrailingCharacters 3 := rfl
+
+/-! ## serialising back verbatim
+
+`Model.SerRaw` transcribes the `RawValue` route of the text serializer (`serialize_struct` with the magic
+name → `Compound::RawValue` → `RawValueStrEmitter::serialize_str` → `Formatter::write_raw_fragment` →
+`write_all(text)`); `RVal` = serializer programs with `RawValue`s at arbitrary positions, `Ctx` = such a
+program with one hole in value position. -/
+
+open SJ.Model.Ser SJ.Model.SerRaw SJ.Proofs.RawSer
+
+/-- **C19 (serialises back verbatim), at any position.** Put a `RawValue` holding `text` into the hole of
+    any context (element of a seq / tuple / tuple struct / tuple variant, value of a map entry, field of a
+    struct or struct variant, payload of `Some` / a newtype struct / a newtype variant — nested to any
+    depth, next to anything, other `RawValue`s included), with the compact or any pretty formatter, from any
+    formatter state. Then either serialisation fails with an error that does not depend on `text` (a map
+    key elsewhere is not a string), or the writer receives the buffers `pre ++ [text] ++ post`: the text,
+    unchanged, as ONE `write_all`, and neither what is written before and after it nor the formatter state
+    afterwards depend on it. -/
+theorem c19_verbatim (ext : Ext) (f : Fmt) (c : Ctx) (st : FState) :
+    (∃ e, ∀ text, serR ext f (c.plug (.raw text)) st = .error e) ∨
+    (∃ pre post st', ∀ text, serR ext f (c.plug (.raw text)) st = .ok ⟨pre ++ [text] ++ post, st'⟩) :=
+  hole_verbatim ext f c st
+
+/-- at top level (`to_string(&raw)`, `to_string_pretty(&raw)`, any indent): exactly the text -/
+theorem c19_verbatim_top (ext : Ext) (text : Bytes) :
+    serRCompact ext (.raw text) = .ok [text] ∧ ∀ indent, serRPretty ext indent (.raw text) = .ok [text] :=
+  ⟨rfl, fun _ => rfl⟩
+
+/-- the bytes: `to_vec` of the plugged program is `before ++ text ++ after` with `before`, `after` fixed -/
+theorem c19_verbatim_bytes (ext : Ext) (f : Fmt) (c : Ctx) :
+    (∃ e, ∀ text, (serR ext f (c.plug (.raw text)) FState.init).map (·.bufs.flatten) = .error e) ∨
+    (∃ before after, ∀ text,
+      (serR ext f (c.plug (.raw text)) FState.init).map (·.bufs.flatten) = .ok (before ++ text ++ after)) := by
+  rcases c19_verbatim ext f c FState.init with ⟨e, he⟩ | ⟨pre, post, st', h⟩
+  · exact .inl ⟨e, fun t => by rw [he]; rfl⟩
+  · exact .inr ⟨pre.flatten, post.flatten, fun t => by rw [h]; simp [Except.map]⟩
+
+/-- the extended serializer is the C03 serializer on the program with every `RawValue` replaced by the
+    `arbitrary_precision` number-literal leaf of the same text (in particular it is the C03 serializer on
+    `RawValue`-free programs): the layout theorems of C03 (`c03_compact`, `c03_pretty_layout`) apply. -/
+theorem c19_serR_is_ser (ext : Ext) (f : Fmt) (p : RVal) (st : FState) :
+    serR ext f p st = ser ext f p.erase st :=
+  serR_erase ext f p st
+
+/-- a `RawValue` in key position is rejected (`MapKeySerializer::serialize_struct`) -/
+theorem c19_raw_key_rejected (ext : Ext) (text : Bytes) : keySerR ext (.raw text) = .error .keyMustBeAString := rfl
+
+/-- non-vacuity: `[true, {"a": RawValue("{ }")}]` pretty-printed with two spaces — the raw text `{ }`
+    (which `to_string_pretty` of the parsed value would reformat as `{}`) arrives untouched -/
+def exExt : Ext := ⟨fun _ => [], fun _ => [], fun _ => []⟩
+example : (serRPretty exExt [0x20, 0x20]
+    (.seq (some 2) [.leaf (.bool true), .struct_ [([0x61], .raw [0x7b, 0x20, 0x7d])]])).map List.flatten =
+    .ok [0x5b, 0x0a, 0x20, 0x20, 0x74, 0x72, 0x75, 0x65, 0x2c, 0x0a, 0x20, 0x20, 0x7b, 0x0a, 0x20, 0x20, 0x20, 0x20,
+         0x22, 0x61, 0x22, 0x3a, 0x20, 0x7b, 0x20, 0x7d, 0x0a, 0x20, 0x20, 0x7d, 0x0a, 0x5d] := rfl
+example : (Ctx.seq (some 2) [.leaf (.bool true)] (.field [] [0x61] .hole []) []).plug (.raw [0x7b, 0x20, 0x7d]) =
+    .seq (some 2) [.leaf (.bool true), .struct_ [([0x61], .raw [0x7b, 0x20, 0x7d])]] := rfl
+/-- the error alternative is real: a non-string key elsewhere fails whatever the text is -/
+example : ∀ text, serR exExt .compact ((Ctx.mapValue none [(.leaf .unit, .leaf .unit)] (.leaf (.str [])) .hole []).plug
+    (.raw text)) FState.init = .error .keyMustBeAString := fun _ => rfl
 
 end SJ.Props.C19
